@@ -93,7 +93,8 @@ def plan(b, seed, per_valid, cap):
                     res = e2e.gen_value(b.schema, m["result"], rng, "body")
                     if res is None:
                         continue
-                base = {"op": "gcall", "service": s["name"], "method": m["name"], "payload": p, "script": {"result": res}}
+                base = {"op": "gcall", "service": s["name"], "method": m["name"], "payload": p, "script": {"result": res},
+                        "caller_md": k % 2 == 1}  # every second caller already has outgoing metadata in its context
                 cmds.append(base)
                 meta.append((s, m, "both", "valid", p, res))
                 if pobj:
